@@ -24,7 +24,7 @@ ASSUMPTIONS = ['templates are read through cgsmiles\' own fragment reader (reade
 
 def budget(tier):
     if tier == 'thorough':
-        return dict(examples=1500, shards=16, procs=16)
+        return dict(examples=5000, shards=16, procs=16)
     return dict(examples=600, shards=4, procs=4)
 
 
